@@ -13,6 +13,7 @@ Statically decided clauses:
 Not decided: restore-exactly arithmetic (refill/flush thresholds), head export/import identity.
 """
 from vlib import sym, rules, effects, dbm as dbmmod
+from vlib.facts import callee
 
 CHAIN = 'stream::chain::ChainCoder'
 HEADS = 'stream::chain::ChainCoderHeads'
@@ -184,6 +185,88 @@ def _is_try_branch(e):
     return e['term'][0] == 'discr' and e['term'][1][0] == 'try'
 
 
+def _shift_affine(k):
+    """shift amount as an affine form over {S, W, P} (PRECISION and NEW_PRECISION both play the role P)."""
+    a = sym.affine(k)
+    if a is None:
+        return None
+    out = {}
+    for key, (c, at) in a[0].items():
+        if at[0] != 'c':
+            return None
+        n = at[1]
+        role = 'S' if n.startswith('<State') else 'W' if n.startswith('<Word') else 'P' if 'PRECISION' in n else n
+        out[role] = out.get(role, 0) + c
+    if a[1]:
+        out['const'] = a[1]
+    return tuple(sorted(out.items()))
+
+
+def guard_of_call(res, i):
+    """The last comparison of the remainders head with a shifted threshold decided before event i: (relation, shift, base)."""
+    found = None
+    for t, v, _ in res.preds[:rules.preds_before(res, i)]:
+        if not (t[0] == 'bin' and t[1] in ('Lt', 'Le') and v in (0, 1)):
+            continue
+        for rem, thr, rem_left in ((t[2], t[3], True), (t[3], t[2], False)):
+            if thr[0] == 'bin' and thr[1] == 'Shl' and sym.contains(rem, lambda y: isinstance(y, tuple) and y and ((y[0] in ('in', 'loop', 'post') and any(e == ('f', 'remainders') for e in y[-1] if isinstance(e, tuple))) or (y[0] == 'loop'))):
+                # normalise to a relation  remainders REL threshold
+                if rem_left:
+                    rel = {('Lt', 1): '<', ('Lt', 0): '>=', ('Le', 1): '<=', ('Le', 0): '>'}[(t[1], v)]
+                else:
+                    rel = {('Lt', 1): '>', ('Lt', 0): '<=', ('Le', 1): '>=', ('Le', 0): '<'}[(t[1], v)]
+                base = 'one' if (thr[2][0] == 'k' and thr[2][1] == 'one') else 'probability'
+                found = (rel, _shift_affine(thr[3]), base)
+    return found
+
+
+def check_head_guards(ctx, F):
+    """Sibling agreement: every flush of the remainders head is guarded by `remainders >= 1 << (S - P)`, every refill
+    / initial fill by `remainders < x << (S - P - W)`; same strictness and same shift at all sites."""
+    groups = {'flush': {}, 'refill': {}}
+    for b in F.bodies:
+        if b.promoted is not None or not b.file.endswith('stream/chain.rs') or '::tests::' in b.defpath or b.dk not in ('Fn', 'AssocFn'):
+            continue
+        names = [(callee(t) or {}).get('name') for _, t in b.calls()]
+        if not any(n in ('flush_remainders_head', 'refill_remainders_head') for n in names) and not (b.name == 'new' and b.self_adt == HEADS):
+            continue
+        ev, paths = rules.evaluate(b)
+        ctx.touch(b)
+        for r in paths or []:
+            for i, e in enumerate(r.events):
+                if e['kind'] != 'call':
+                    continue
+                kind = None
+                if e['name'] == 'flush_remainders_head':
+                    kind = 'flush'
+                elif e['name'] == 'refill_remainders_head':
+                    kind = 'refill'
+                elif b.name == 'new' and b.self_adt == HEADS and e['callee'] == 'backends::ReadWords::read' and r.end == 'backedge' \
+                        and any(e['block'] in blocks for blocks in ev.loops.values()):
+                    kind = 'refill'
+                if kind is None:
+                    continue
+                g = guard_of_call(r, i)
+                site = '%s@%s' % (b.name, e['span'].split(':')[1])
+                groups[kind].setdefault(b.defpath, set()).add(g)
+    for kind, want_rel in (('flush', '>='), ('refill', '<')):
+        sites = groups[kind]
+        key = 'R4/head-guard-agreement/' + kind
+        role = 'all guards that trigger a %s of the remainders head use the same relation and threshold shift' % kind
+        flat = set()
+        for dp, gs in sites.items():
+            flat |= {(g[0], g[1]) if g else None for g in gs}
+        if len(sites) < 2:
+            ctx.unresolved('R4', role, CHAIN, 'fewer than two %s sites found (%d)' % (kind, len(sites)), key=key)
+        elif None in flat:
+            ctx.unresolved('R4', role, CHAIN, 'a %s site has no recognisable guard' % kind, key=key)
+        elif len(flat) == 1 and list(flat)[0][0] == want_rel:
+            ctx.ok('R4', role, CHAIN, '%d sites: remainders %s x << %s' % (len(sites), want_rel, dict(list(flat)[0][1])), key=key)
+        else:
+            detail = '; '.join('%s: %s' % (dp.rsplit('::', 1)[-1], sorted((g[0], dict(g[1]) if g and g[1] else None) for g in gs if g)) for dp, gs in sorted(sites.items()))
+            ctx.bad('R4', role, CHAIN, 'sites disagree (expected `remainders %s threshold` everywhere): %s' % (want_rel, detail), key=key)
+
+
 def check_heads_closed(ctx, F):
     a = F.adts.get(HEADS)
     if a is None:
@@ -218,6 +301,7 @@ def run(ctx):
     check_out_of_data(ctx, F)
     check_precision_changers(ctx, F)
     check_heads_closed(ctx, F)
+    check_head_guards(ctx, F)
     if ctx.tier == 'thorough':
         from vlib import witness
         witness.run(ctx, 'C13')
